@@ -98,7 +98,7 @@ class Ctx:
         self.exhaustive = None
         self.inconclusive = []
         self.only_case = None
-        self._san = None
+        self._workers = []
         self._lock = threading.Lock()
         if self.args.replay:
             with open(self.args.replay) as f:
@@ -128,6 +128,13 @@ class Ctx:
         if self.args.only and self.args.only not in case_id:
             return False
         return True
+
+    def lap(self, name):
+        """Record wall time since the previous lap under `name` (evidence: where the time went)."""
+        now = time.time()
+        last = getattr(self, "_lap_t", self.t0)
+        self.notes.setdefault("wall_by_phase_s", {})[name] = round(self.notes.get("wall_by_phase_s", {}).get(name, 0) + now - last, 1)
+        self._lap_t = now
 
     def count(self, name, n=1):
         with self._lock:
@@ -240,71 +247,77 @@ class Ctx:
             tb = traceback.format_exc(limit=12)
             self.violation(mechanism + ":exception:" + type(e).__name__, msg + "\n" + tb, case_id=case_id)
 
-    # ------------------------------------------------------------------ sanitizer sub-worker
-    def spawn_san(self, module, extra_args=()):
-        """Start the sanitizer-build worker of this check in the background."""
-        if self.worker or self.only_case is not None and False:
+    # ------------------------------------------------------------------ sub-workers (sanitizer build, other threading layer, ...)
+    def spawn_worker(self, module, name, env_extra=None, extra_args=()):
+        """Start a sub-worker of this check (same module, `--worker <name>`) in the background."""
+        if self.worker:
             return
-        out = os.path.join(VERIF, ".work", "%s.san.%d.json" % (self.pid, os.getpid()))
+        out = os.path.join(VERIF, ".work", "%s.%s.%d.json" % (self.pid, name, os.getpid()))
         os.makedirs(os.path.dirname(out), exist_ok=True)
         env = dict(os.environ)
-        env["VERIF_BUILD"] = "san"
+        env.update(env_extra or {})
         env["PYTHONPATH"] = VERIF + os.pathsep + env.get("PYTHONPATH", "")
-        cmd = [sys.executable, "-X", "faulthandler", "-m", module, "--worker", "san", "--out", out,
+        cmd = [sys.executable, "-X", "faulthandler", "-m", module, "--worker", name, "--out", out,
                "--tier", self.tier, "--seed", str(self.seed)] + list(extra_args)
+        if self.args.replay:
+            cmd += ["--replay", self.args.replay]
+        if self.args.only:
+            cmd += ["--only", self.args.only]
         log = open(out + ".log", "w")
         p = subprocess.Popen(cmd, cwd=VERIF, env=env, stdout=log, stderr=subprocess.STDOUT)
-        self._san = (p, out, log)
+        self._workers.append((name, p, out, log))
 
-    def _join_san(self):
-        if not self._san:
-            return
-        p, out, log = self._san
-        budget = 1500 if self.quick else 3 * 3600
-        try:
-            rc = p.wait(timeout=max(60, budget - (time.time() - self.t0)))
-        except subprocess.TimeoutExpired:
-            p.kill()
-            self.inconclusive.append("sanitizer-build worker timed out")
-            rc = None
-        log.close()
-        tail = ""
-        try:
-            with open(out + ".log") as f:
-                tail = f.read()[-3000:]
-        except OSError:
-            pass
-        res = None
-        if os.path.exists(out):
+    def spawn_san(self, module, extra_args=()):
+        """Sanitizer-build worker: same module, Numba kernels recompiled serial + bounds-checked + no fastmath."""
+        self.spawn_worker(module, "san", {"VERIF_BUILD": "san"}, extra_args)
+
+    def _join_workers(self):
+        for name, p, out, log in self._workers:
+            budget = 1500 if self.quick else 3 * 3600
             try:
-                with open(out) as f:
-                    res = json.load(f)
-            except Exception:  # noqa: BLE001
-                res = None
-        for pth in (out, out + ".log"):
-            with contextlib.suppress(OSError):
-                os.remove(pth)
-        if rc is None:
-            return
-        if res is None:
-            self.violation("sanitizer_build:crash", "sanitizer-build worker exited with %s and no result\n%s" % (rc, tail))
-            return
-        self.notes["sanitizer_build"] = {
-            "cases": res.get("evaluations"),
-            "counters": res.get("counters"),
-            "notes": res.get("notes"),
-            "violations": len(res.get("violations", [])),
-            "known_hits": {k: v["count"] for k, v in res.get("known_hits", {}).items()},
-            "wall_s": res.get("wall_s"),
-        }
-        for v in res.get("violations", []):
-            self.violation("san:" + v["mechanism"] if not v["mechanism"].startswith("san:") else v["mechanism"],
-                           v["message"], case_id=v.get("case_id"))
-        for m, k in res.get("known_hits", {}).items():
-            kk = self.known_hits.setdefault(m, {"what": k.get("what", ""), "count": 0, "first": k.get("first")})
-            kk["count"] += k["count"]
-        if res.get("evaluations", 0) == 0:
-            self.inconclusive.append("sanitizer-build worker observed no case")
+                rc = p.wait(timeout=max(60, budget - (time.time() - self.t0)))
+            except subprocess.TimeoutExpired:
+                p.kill()
+                self.inconclusive.append("%s worker timed out" % name)
+                rc = None
+            log.close()
+            tail = ""
+            try:
+                with open(out + ".log") as f:
+                    tail = f.read()[-3000:]
+            except OSError:
+                pass
+            res = None
+            if os.path.exists(out):
+                try:
+                    with open(out) as f:
+                        res = json.load(f)
+                except Exception:  # noqa: BLE001
+                    res = None
+            for pth in (out, out + ".log"):
+                with contextlib.suppress(OSError):
+                    os.remove(pth)
+            if rc is None:
+                continue
+            if res is None:
+                self.violation("%s_worker:crash" % name, "%s worker exited with %s and no result\n%s" % (name, rc, tail))
+                continue
+            self.notes["worker_" + name] = {
+                "cases": res.get("evaluations"),
+                "counters": res.get("counters"),
+                "notes": res.get("notes"),
+                "violations": len(res.get("violations", [])),
+                "known_hits": {k: v["count"] for k, v in res.get("known_hits", {}).items()},
+                "wall_s": res.get("wall_s"),
+            }
+            for v in res.get("violations", []):
+                m = v["mechanism"]
+                self.violation(m if m.startswith(name + ":") else name + ":" + m, v["message"], case_id=v.get("case_id"))
+            for m, k in res.get("known_hits", {}).items():
+                kk = self.known_hits.setdefault(m, {"what": k.get("what", ""), "count": 0, "first": k.get("first")})
+                kk["count"] += k["count"]
+            if res.get("evaluations", 0) == 0 and self.only_case is None and not self.args.only:
+                self.inconclusive.append("%s worker observed no case" % name)
 
     # ------------------------------------------------------------------ finish
     def _watchdog_fire(self):
@@ -364,7 +377,7 @@ class Ctx:
         os.replace(tmp, path)
 
     def finish(self):
-        self._join_san()
+        self._join_workers()
         self._wd.cancel()
         unmet = [n for n, o in self.obligations.items() if not o["met"]]
         if self.only_case is None and not self.args.only:
